@@ -13,6 +13,8 @@
 //      MaxGas values: after every DeliverTx the block meter moved by exactly min(GasUsed, GasWanted) of that tx; a tx
 //      that crosses the limit fails; once the meter is exhausted every further DeliverTx fails with "no block gas
 //      left", uses no gas and leaves the full state dump unchanged.
+//  (e) output metering (output.go): every way a string reaches the output x contents x sizes x repetitions on bare
+//      GnoVM machines: each extra emission is charged at least price x bytes emitted; limits below need run out of gas.
 //  (d) termination: an unbounded-work program menu x gas limits 1e6..3e7 (1e8 thorough) in worker subprocesses under
 //      an address-space cap: every run must end (error = out of gas or allocation limit), never succeed, never hang,
 //      never exceed the memory cap, and charge the block meter at most GasWanted.
@@ -819,6 +821,10 @@ func main() {
 	r.SetBudget(6*time.Minute, 28*time.Minute)
 	only := os.Getenv("C10_ONLY")
 	var wg sync.WaitGroup
+	if only == "" || only == "e" {
+		wg.Add(1)
+		go func() { defer wg.Done(); partOutput() }()
+	}
 	if only == "" || only == "d" {
 		wg.Add(1)
 		go func() { defer wg.Done(); partTermination() }()
@@ -834,8 +840,9 @@ func main() {
 		"reading of 'gas used <= gas wanted': it binds successful txs; an out-of-gas tx reports the raw meter value including the charge that crossed the limit (basicGasMeter.ConsumeGas: 'consume gas even if out of gas'), while the amount charged to the block meter is GasConsumedToLimit = GasWanted — both checked",
 		"an out-of-gas inside the ante handler (GasWanted below the tx-size/signature costs) leaves no effect at all (the fee cannot be taken before the signature is verified): accepted as 'none'",
 		"the ladder is relative to the need G measured with ample gas on an identical chain; GasWanted is varint-encoded in the tx, so the need varies by at most 8 bytes x TxSizeCostPerByte (slack 80)",
+		"output part: bytes emitted = bytes reaching the machine's output writer plus, for an unhandled panic, the length of the rendered message; the per-byte price is the repo's constant streamOutputGasPerByte, read through a build-overlay export",
 		"VM cycle counts are not observable through ABCI: the work bound is expressed in gas (CPU cycles are charged 1:1 through incrCPU) plus a resident-memory high-water mark; the watchdog only detects hangs",
 	}
-	r.Finish("(a) 9-tx menu x 11-point GasWanted ladder (thorough +31 points) each on its own chain; (b) each tx under 3-4 history conditions vs fresh chain; (c) all 24 orderings of a 4-tx block menu x 2-4 block gas limits (one chain per limit, one block per ordering); (d) 15 unbounded programs x 4 (5) gas limits in capped worker processes; distinct = distinct (case, outcome class)",
+	r.Finish("(a) 9-tx menu x 11-point GasWanted ladder (thorough +31 points) each on its own chain; (b) each tx under 3-4 history conditions vs fresh chain; (c) all 24 orderings of a 4-tx block menu x 2-4 block gas limits (one chain per limit, one block per ordering); (d) 14 unbounded programs x 4 (5) gas limits in capped worker processes; (e) output metering on bare GnoVM machines: 26 output shapes x 5 string contents x 8 string sizes 0..1 MiB (quick: 416 of the 1040 cases) x K in {0,1,3} emissions x gas limits {need, need-1, price*bytes-1}; distinct = distinct (case, outcome class)",
 		true, map[string]any{"transactions": nTx.Load(), "chains": nChains.Load(), "distinct_states": nStates.Load()})
 }
